@@ -636,7 +636,7 @@ func (x *exec) observe(step int, ctx string, keys []int) (*Failure, *inconclusiv
 		if !s.open {
 			if present {
 				// corroborate through the service: a finished handle must be unusable
-				r := x.call(&Req{Op: "txget", H: h, K: 0}, false)
+				r := x.call(&Req{Op: "txget", H: h, K: 0}, x.md.hasBig())
 				if r.err == nil {
 					return &Failure{step, "finished-handle-usable:" + ctx, fmt.Sprintf("handle %s (slot %d) is finished but still registered; TxGet on it answered found=%v without error", s.id, h, r.found)}, nil
 				}
@@ -644,7 +644,7 @@ func (x *exec) observe(step int, ctx string, keys []int) (*Failure, *inconclusiv
 			continue
 		}
 		if !present {
-			r := x.call(&Req{Op: "txget", H: h, K: 0}, false)
+			r := x.call(&Req{Op: "txget", H: h, K: 0}, x.md.hasBig())
 			if r.err != nil {
 				return &Failure{step, "open-handle-lost:" + ctx, fmt.Sprintf("handle %s (slot %d) is open but no longer registered; TxGet on it fails: %v", s.id, h, r.err)}, nil
 			}
@@ -801,6 +801,12 @@ func (x *exec) do(i int) (f *Failure, inc *inconclusive, skipped bool) {
 		}
 	case "scan", "stats":
 		bFull, bErr = embeddedLive(x.B)
+	case "scanproduct":
+		if r.H < 0 {
+			bFull, bErr = embeddedLive(x.B)
+		} else {
+			bFull = fullScan(x.slots[r.H].txB.NewIterator())
+		}
 	case "begin":
 		tx, err := x.B.BeginTransaction(r.RO)
 		if err != nil {
@@ -836,8 +842,17 @@ func (x *exec) do(i int) (f *Failure, inc *inconclusive, skipped bool) {
 		mFull = x.modelKVs(-1)
 	case "txscan":
 		mFull = x.modelKVs(r.H)
+	case "scanproduct":
+		h := r.H
+		if h < 0 {
+			h = -1
+		}
+		mFull = x.modelKVs(h)
 	}
 	x.md.apply(c, r)
+	if r.Op == "scanproduct" {
+		return x.scanProduct(i, r, direct, bFull, bErr, mFull)
+	}
 	if r.Op == "commit" || r.Op == "rollback" {
 		x.slots[r.H].open = false
 	}
@@ -914,6 +929,52 @@ func (x *exec) do(i int) (f *Failure, inc *inconclusive, skipped bool) {
 		x.quiesce()
 	}
 	f, inc = x.observe(i, r.Op, x.touched(r))
+	return f, inc, false
+}
+
+// scanProduct issues the full product of scan options (x five limits around
+// the number of matching entries) as Scan or TxScan requests and checks every
+// answer against one embedded listing (nothing changes in between).
+func (x *exec) scanProduct(i int, r *Req, direct bool, bFull []kv, bErr error, mFull []kv) (*Failure, *inconclusive, bool) {
+	c := x.c
+	if bErr != nil {
+		return nil, &inconclusive{"embedded-scan-error", errStr(bErr)}, false
+	}
+	if !sameKVs(bFull, mFull) || !ascending(bFull) {
+		return nil, &inconclusive{"embedded-differs-from-model", fmt.Sprintf("step %d %s: embedded listing %s model %s", i, r.describe(c), briefKVs(bFull), briefKVs(mFull))}, false
+	}
+	op, h := "scan", -1
+	if r.H >= 0 {
+		op, h = "txscan", r.H
+	}
+	issued := 0
+	for _, base := range c.productScans(r) {
+		kind := scanKind(&base)
+		n := 0
+		for _, e := range bFull {
+			if matchScan(&base, e.k, kind == "range") {
+				n++
+			}
+		}
+		for _, lim := range []int32{0, 1, int32(n), int32(n + 1), -1} {
+			s := base
+			s.Limit = lim
+			q := &Req{Op: op, H: h, Scan: &s}
+			res := x.call(q, direct)
+			issued++
+			if res.err == errBlocked {
+				return &Failure{i, "scanproduct:" + op + ":blocked", q.describe(c)}, nil, false
+			}
+			if res.err != nil {
+				return &Failure{i, "scanproduct:" + op + ":fails-but-embedded-ok", q.describe(c) + ": " + errStr(res.err)}, nil, false
+			}
+			if what, msg := checkScan(res.kvs, bFull, &s); what != "" {
+				return &Failure{i, "scanproduct:" + op + ":" + kind + ":" + what, q.describe(c) + ": " + msg}, nil, false
+			}
+		}
+	}
+	ev.R().Count("scan_product_requests", issued)
+	f, inc := x.observe(i, "scanproduct", []int{})
 	return f, inc, false
 }
 
